@@ -421,7 +421,8 @@ impl<'a> Device<'a> {
     /// Iterate over the decoded values for this device
     pub fn iter(&self) -> impl Iterator<Item = i8> + 'a {
         let format = self.delta_format();
-        let mut n = (self.end_size() - self.start_size()) as usize + 1;
+        // a start size beyond the end size describes no deltas (and comes with no delta words)
+        let mut n = (self.end_size() as usize + 1).saturating_sub(self.start_size() as usize);
         let deltas_per_word = match format {
             DeltaFormat::Local2BitDeltas => 8,
             DeltaFormat::Local4BitDeltas => 4,
